@@ -98,6 +98,7 @@ type interpreter struct {
 	frozenMap map[*omap]bool
 	pools     map[*value][]value
 	onces     map[*value]bool
+	syncMaps  map[*value]*omap
 	unwinding bool
 
 	osArgs             []value                // the value of os.Args
